@@ -27,6 +27,28 @@ def _is_f(e, field):
     return e[0] == "field" and e[2] == field
 
 
+def _store_value(b, sym, w):
+    """the stored value; in a function that differs from the reference tree, temporaries and variables assigned on several paths
+    are resolved by the definitions reaching the store"""
+    if getattr(b, "changed", False):
+        from analysis.sym import split_rows
+        alts = split_rows(sym, w["bb"], w["idx"], w["rv"])
+        if alts and len(alts) == 1:
+            return alts[0][1]
+    return sym.rvalue(w["rv"])
+
+
+def _max_with(val, field):
+    """max(self.<field>, x) in either order -> x"""
+    if is_call(val, "std::cmp::Ord::max", "core::cmp::Ord::max", "max") and len(val[2]) == 2:
+        a, b2 = val[2]
+        if _is_f(a, field):
+            return b2
+        if _is_f(b2, field):
+            return a
+    return None
+
+
 def run(facts, R):
     for f in ("acked_offset", "sent_offset", "cancelled", "window_bytes", "current_file_index", "pending_resume"):
         facts.require_field(INNER, f)
@@ -42,11 +64,12 @@ def run(facts, R):
             R.bad("acked-le-sent", fn, "acked_offset:" + w["kind"],
                   "acked_offset is written through %s; only guarded plain stores are recognised" % w["kind"], w["span"])
             continue
-        val = sym.rvalue(w["rv"])
+        val = _store_value(b, sym, w)
         fs = facts_at(b, sym, facts, w["bb"])
         if const_val(val) == 0:
             R.ok("acked-le-sent", fn, "acked_offset=0", w["span"], "reset to constant 0")
             continue
+        raised = _max_with(val, "acked_offset")     # acked = acked.max(x): monotone by construction, bounded if x is
         n_nonzero += 1
         vtxt = render(val)
         # (a) value bounded by sent_offset
@@ -56,6 +79,9 @@ def run(facts, R):
             bounded, why = True, "value is min(_, sent_offset)"
         elif has_cmp(fs, "Le", lambda a: a == val, lambda x: _is_f(x, "sent_offset")) or has_cmp(fs, "Lt", lambda a: a == val, lambda x: _is_f(x, "sent_offset")):
             bounded, why = True, "store dominated by `value <= sent_offset`"
+        elif raised is not None and (has_cmp(fs, "Le", lambda a: a == raised, lambda x: _is_f(x, "sent_offset")) or has_cmp(fs, "Lt", lambda a: a == raised, lambda x: _is_f(x, "sent_offset"))
+                                     or (is_call(raised, "min") and any(_is_f(a, "sent_offset") for a in raised[2]))):
+            bounded, why = True, "value is max(acked_offset, x) with x <= sent_offset (acked_offset <= sent_offset is the invariant being kept)"
         elif val[0] == "local" and len(b.defs_of(val[1])) > 1:
             # a value chosen between alternatives (`if x < sent { x } else { sent }`): each alternative is bounded
             okd = True
@@ -73,7 +99,7 @@ def run(facts, R):
                 "store acked_offset = %s is neither min(_, sent_offset) nor guarded by value <= sent_offset; guards: %s"
                 % (vtxt, texts(fs)), w["span"], why)
         # (b) monotone: guarded by value > acked_offset
-        mono = has_cmp(fs, "Lt", lambda a: _is_f(a, "acked_offset"), lambda x: x == val)
+        mono = has_cmp(fs, "Lt", lambda a: _is_f(a, "acked_offset"), lambda x: x == val) or raised is not None
         R.check(mono, "ack-guards", fn, "acked_offset-monotone",
                 "store acked_offset = %s is not guarded by value > acked_offset (a stale ack could move it); guards: %s"
                 % (vtxt, texts(fs)), w["span"], "guarded by acked_offset < value")
@@ -94,7 +120,7 @@ def run(facts, R):
         if w["kind"] != "store":
             R.bad("sent-monotone", fn, "sent_offset:" + w["kind"], "sent_offset written through " + w["kind"], w["span"])
             continue
-        val = sym.rvalue(w["rv"])
+        val = _store_value(b, sym, w)
         fs = facts_at(b, sym, facts, w["bb"])
         if const_val(val) == 0:
             # must be paired with acked_offset := 0 in the same function, on all paths to return
@@ -107,7 +133,7 @@ def run(facts, R):
                     "sent_offset is reset to 0 on a path that leaves acked_offset non-zero (acked > sent)", w["span"],
                     "reset paired with acked_offset reset", path=w_path)
             continue
-        mono = has_cmp(fs, "Lt", lambda a: _is_f(a, "sent_offset"), lambda x: x == val)
+        mono = has_cmp(fs, "Lt", lambda a: _is_f(a, "sent_offset"), lambda x: x == val) or _max_with(val, "sent_offset") is not None
         R.check(mono, "sent-monotone", fn, "sent_offset-monotone",
                 "store sent_offset = %s is not guarded by value > sent_offset (could drop below acked_offset); guards: %s"
                 % (render(val), texts(fs)), w["span"], "guarded by sent_offset < value")
